@@ -199,6 +199,19 @@ def run_property(prop, tier="quick", workers=None, extra=None):
             results = list(ex.map(run_task, jobs))
     fin = run_finite(prop)
     extra = dict(extra or {})
+    audit_errors = []
+    try:
+        from audits import laws_audit
+
+        aud = laws_audit.run_for(prop, seed, tier)
+        if aud:
+            extra["bounded_standins"] = [dict(a, note="bounded audit of an assumption; not counted in obligations/discharged") for a in aud]
+            for a in aud:
+                if a["failed"]:
+                    audit_errors.append([a["name"], "assumption audit failed: " + "; ".join(map(str, a["failed"][:3]))])
+    except Exception as e:  # pylint: disable=broad-except
+        audit_errors.append(["audits", f"{type(e).__name__}: {e}"])
+    extra["_audit_errors"] = audit_errors
     if fin is not None:
         extra["finite_conditions"] = {
             "evaluated": len(fin),
@@ -228,9 +241,10 @@ def finish(prop, tier, seed, results, t0, error=None, extra=None, finite=None):
     from . import replay as RP
 
     known = load_known_findings()
+    audit_errors = (extra or {}).pop("_audit_errors", []) if extra else []
     n_obl = n_dis = 0
     by_backend = {}
-    undecided, errors, violations, known_hits = [], [], [], []
+    undecided, errors, violations, known_hits = [], list(audit_errors), [], []
     vac = {}
     solver_time = 0.0
     functions = []
@@ -266,6 +280,11 @@ def finish(prop, tier, seed, results, t0, error=None, extra=None, finite=None):
                 elif o["result"] == "unknown":
                     vac[grp] = vac[grp] or None
                 continue
+            if o["result"] == "sat" and any(matches_finding(kf, prop, o) for kf in known):
+                # a recorded known finding: reported on its own line, not counted among the obligations
+                kf = next(kf for kf in known if matches_finding(kf, prop, o))
+                known_hits.append((kf, o))
+                continue
             n_obl += 1
             if o["result"] == "unsat":
                 n_dis += 1
@@ -273,15 +292,7 @@ def finish(prop, tier, seed, results, t0, error=None, extra=None, finite=None):
                 if len(samples) < 6 and o["backend"] != "simplifier":
                     samples.append({"obligation": o["name"], "kind": o["kind"], "backend": o["backend"], "time_s": o["time"], "hypotheses": o["nhyps"], "path_tail": o["trace"][-4:]})
             elif o["result"] == "sat":
-                hit = None
-                for kf in known:
-                    if matches_finding(kf, prop, o):
-                        hit = kf
-                        break
-                if hit is not None:
-                    known_hits.append((hit, o))
-                else:
-                    violations.append((tname, o))
+                violations.append((tname, o))
             else:
                 undecided.append([o["name"], f"solver: {o['reason']}"])
     # vacuity: every task must have a reachable precondition; a task with ensures must reach it
@@ -354,7 +365,8 @@ def finish(prop, tier, seed, results, t0, error=None, extra=None, finite=None):
             "paths": paths,
             "undecided": len(undecided),
             "engine_errors": len(errors),
-            "known_findings": [kf["id"] for kf, _ in known_hits],
+            "known_findings": sorted({kf["id"] for kf, _ in known_hits}),
+            "known_finding_obligations": len(known_hits),
             "samples": samples or [{"note": "no solver-discharged obligation to show"}],
             "vacuity_guards": {k: bool(v) for k, v in vac.items()},
             "exit_code": code,
